@@ -346,6 +346,13 @@ extern "C"
         if (heap().in_client)
         {
             void* p = nullptr;
+            // ISO C: the alignment must be valid and the size an integral multiple of it (C11: undefined otherwise, C17: the call fails).
+            // The simulated libc is a strict one: it records the contract violation and fails the call.
+            if (alignment == 0 || (alignment & (alignment - 1)) != 0 || size % alignment != 0)
+            {
+                heap().events.push_back(c18::HeapEvent { c18::EV_ALLOC_EINVAL, 0, 0, (uint64_t)size, (uint64_t)alignment, heap().call });
+                return nullptr;
+            }
             return heap().alloc(&p, alignment, size, "aligned_alloc", false) == 0 ? p : nullptr;
         }
         return __real_aligned_alloc(alignment, size);
